@@ -387,6 +387,17 @@ static void _GD_Delete(DIRFILE *restrict D, gd_entry_t *restrict E,
   /* Fix up reference fields */
   if (reference != NULL)
     D->reference_field = reference;
+  else if (D->reference_field == E) {
+    /* the reference field itself is going away (it was not named by a
+     * /REFERENCE directive of the root fragment, or nothing in that scope can
+     * replace it): fall back on any remaining RAW field, or on none at all */
+    D->reference_field = NULL;
+    for (j = 0; j < D->n_entries; ++j)
+      if (j != index && D->entry[j]->field_type == GD_RAW_ENTRY) {
+        D->reference_field = D->entry[j];
+        break;
+      }
+  }
 
   if (new_ref != NULL) {
     for (i = 0; i < D->n_fragment; ++i)
